@@ -432,3 +432,15 @@ package index
 //@   requires [items] a != nil && b != nil && (t == 1 || t == 0 - 1)
 //@   ensures [a-smaller-key-goes-where-t-says] result == (cmpKeys(keyid(a.key), keyid(b.key)) == 0 - 1 ? t : 0 - t)
 //@   modifies nothing
+
+// the hash-map snapshot: one item per key of the map (the visit counter of the range loop indexes the snapshot),
+// sorted by the comparator above in the direction `reverse` asks for
+//@ func index.newMapIterator
+//@   props C10 C14 C09
+//@   content
+//@   requires [map] mp != nil ==> mp.mp != nil && 0 <= len(mp.mp) && len(mp.mp) <= 1099511627776
+//@   ensures [snapshot] result != nil && fresh(result) && result.reverse == reverse && result.curIndex == 0 && (mp != nil ==> len(result.values) == old(len(mp.mp)))
+//@   at slices.SortFunc[[]*index.item *index.item] assert [sorts-the-whole-snapshot-in-the-requested-direction] arg0 == values && t == (reverse ? 1 : 0 - 1)
+//@   modifies nothing
+//@   loop 1
+//@     invariant [one-slot-per-visited-key] idx == visited() && len(values) == len(mp.mp) && fresh(values) && mp != nil && mp.mp == old(mp.mp)
